@@ -145,7 +145,8 @@ def replay(xo, ctx, kind, model):
     return out
 
 
-def model_level(run):
+def model_level(run, only=None):
+    """only(key, model) -> bool: which findings the calling property claims (None = all)"""
     t = TIERS[run.tier]
     # vacuity: both broken variants must be rejected by the model checker
     for mode, real in (("norefresh", "struct"), ("inplace", "struct"), ("norefresh", "array")):
@@ -176,6 +177,8 @@ def model_level(run):
             for key, desc in fs:
                 if key == "drift":
                     drift += 1
+                    continue
+                if only is not None and not only(key, m):
                     continue
                 run.report(key, desc, dict(engine="handles", kind=kind, model=m))
     res = dict(distinct=states)
